@@ -147,8 +147,11 @@ static inline bool uqueue_push(struct uqueue *uqueue, void *element)
         ueventfd_write(&uqueue->event_push);
     }
 
-    if (unlikely(uatomic_fetch_add(&uqueue->counter, 1) == 0))
-        ueventfd_write(&uqueue->event_pop);
+    /* Always signal: the counter is updated after the element has become
+     * visible, so a concurrent pop may overtake the update and the counter
+     * cannot tell whether a consumer went to sleep on an empty queue. */
+    uatomic_fetch_add(&uqueue->counter, 1);
+    ueventfd_write(&uqueue->event_pop);
     return true;
 }
 
@@ -173,8 +176,11 @@ static inline void *uqueue_pop_internal(struct uqueue *uqueue)
         ueventfd_write(&uqueue->event_pop);
     }
 
-    if (unlikely(uatomic_fetch_sub(&uqueue->counter, 1) == uqueue->length))
-        ueventfd_write(&uqueue->event_push);
+    /* Always signal: a push whose counter update is still pending makes the
+     * counter under-estimate the occupancy, so it cannot tell whether a
+     * producer went to sleep on a full queue. */
+    uatomic_fetch_sub(&uqueue->counter, 1);
+    ueventfd_write(&uqueue->event_push);
     return element;
 }
 
